@@ -116,6 +116,11 @@ func (idx *Index) GetEntry(path []byte) (int, *Entry, bool) {
 func (idx *Index) GetEntriesByDirectory(dirName string) []*Entry {
 	var entries []*Entry
 
+	// "." is the root of the working tree: everything is beneath it
+	if dirName == "." {
+		return append(entries, idx.Entries...)
+	}
+
 	// an entry is beneath the directory if its path starts with "<dirName>/" and has something after it
 	dirPrefix := []byte(dirName + "/")
 	for _, entry := range idx.Entries {
@@ -130,6 +135,9 @@ func (idx *Index) GetEntriesByDirectory(dirName string) []*Entry {
 func (idx *Index) IsRegisteredAsDirectory(dirName string) bool {
 	if idx.EntryNum == 0 {
 		return false
+	}
+	if dirName == "." {
+		return true
 	}
 
 	dirPrefix := dirName + "/"
